@@ -800,6 +800,13 @@ func (m *Manager) configureTasks(envId uid.ID, tasks Tasks) error {
 		if respError != nil {
 			errText := respError.Error()
 			if len(strings.TrimSpace(errText)) != 0 {
+				// a single-target response follows the same rule as a multi-response:
+				// the failure of a non-critical task does not fail the transition
+				if len(tasks) == 1 && !isCriticalTask(tasks[0]) {
+					log.WithField("partition", envId).
+						Warnf("%s could not complete for non-critical task, error: %s", "CONFIGURE", errText)
+					return nil
+				}
 				return errors.New(response.Err().Error())
 			}
 			// FIXME: improve error handling ↑
@@ -807,6 +814,17 @@ func (m *Manager) configureTasks(envId uid.ID, tasks Tasks) error {
 	}
 
 	return nil
+}
+
+// isCriticalTask tells whether a failure of this task must fail the operation it is part of.
+func isCriticalTask(task *Task) bool {
+	if task == nil {
+		return false
+	}
+	if task.GetTraits().Critical {
+		return true
+	}
+	return task.parent != nil && task.parent.GetTaskTraits().Critical
 }
 
 func (m *Manager) transitionTasks(envId uid.ID, tasks Tasks, src string, event string, dest string, commonArgs controlcommands.PropertyMap) error {
@@ -885,6 +903,13 @@ func (m *Manager) transitionTasks(envId uid.ID, tasks Tasks, src string, event s
 		if respError != nil {
 			errText := respError.Error()
 			if len(strings.TrimSpace(errText)) != 0 {
+				// a single-target response follows the same rule as a multi-response:
+				// the failure of a non-critical task does not fail the transition
+				if len(tasks) == 1 && !isCriticalTask(tasks[0]) {
+					log.WithField("partition", envId).
+						Warnf("%s could not complete for non-critical task, error: %s", event, errText)
+					return nil
+				}
 				return errors.New(response.Err().Error())
 			}
 			// FIXME: improve error handling ↑
